@@ -108,6 +108,55 @@ func c19Fuzzer(seed int64) *fuzz.Fuzzer {
 			*t = metav1.NewMicroTime(time.Unix(int64(c.Intn(2000000000)), int64(c.Intn(1000000))*1000).UTC())
 		},
 		func(d *metav1.Duration, c fuzz.Continue) { d.Duration = time.Duration(c.Intn(100000)) * time.Second },
+		// optional scalars: nil, pointer to the zero value (explicitly set to 0 / false / ""), or a random value
+		func(p **int64, c fuzz.Continue) {
+			switch c.Intn(4) {
+			case 0:
+				*p = nil
+			case 1:
+				z := int64(0)
+				*p = &z
+			default:
+				v := int64(c.Intn(1 << 31))
+				*p = &v
+			}
+		},
+		func(p **int32, c fuzz.Continue) {
+			switch c.Intn(4) {
+			case 0:
+				*p = nil
+			case 1:
+				z := int32(0)
+				*p = &z
+			default:
+				v := int32(c.Intn(1 << 30))
+				*p = &v
+			}
+		},
+		func(p **bool, c fuzz.Continue) {
+			switch c.Intn(3) {
+			case 0:
+				*p = nil
+			case 1:
+				z := false
+				*p = &z
+			default:
+				v := true
+				*p = &v
+			}
+		},
+		func(p **string, c fuzz.Continue) {
+			switch c.Intn(3) {
+			case 0:
+				*p = nil
+			case 1:
+				z := ""
+				*p = &z
+			default:
+				v := c.RandString()
+				*p = &v
+			}
+		},
 		func(m *metav1.FieldsV1, c fuzz.Continue) { m.Raw = []byte(`{"f:x":{}}`) },
 		func(p *corev1.PodTemplateSpec, c fuzz.Continue) {
 			c.FuzzNoCustom(p)
